@@ -637,6 +637,11 @@ ACCUMULATING = {
     "select_star_then_fn": lambda c: (lambda P, Q, t, u, v: Q.from_(t).select("*", P.functions.Upper(t.m1q)))(*_acc(c)),
     "returning_star_then_aliased": lambda c: (lambda P, Q, t, u, v: Q.into(t).insert(1).returning("*", t.a.as_("m1q")))(*_acc(c)),
     "returning_table_star_then_aliased": lambda c: (lambda P, Q, t, u, v: Q.into(t).insert(1).returning(t.star).returning(t.a.as_("m1q")))(*_acc(c)),
+    "agg_filter_case_first": lambda c: (lambda P, Q, t, u, v: Q.from_(t).select(P.functions.Sum(t.a).filter(P.Case().when(t.m1q == 1, True).else_(False)).filter(t.m2q == 2)))(*_acc(c)),
+    "criterion_all_case_first": lambda c: (lambda P, Q, t, u, v: Q.from_(t).select(t.a).where(P.Criterion.all([P.Case().when(t.m1q == 1, True).else_(False), t.m2q == 2])))(*_acc(c)),
+    "criterion_any_case_first": lambda c: (lambda P, Q, t, u, v: Q.from_(t).select(t.a).where(P.Criterion.any([P.Case().when(t.m1q == 1, True).else_(False), t.m2q == 2])))(*_acc(c)),
+    "prewhere_empty_then_real": lambda c: (lambda P, Q, t, u, v: Q.from_(t).select(t.m1q).prewhere(P.Criterion.all([])).prewhere(t.m2q == 2))(*_acc(c)),
+    "prewhere_empty_alone": lambda c: (lambda P, Q, t, u, v: Q.from_(t).select(t.m1q).prewhere(P.Criterion.all([])))(*_acc(c)),
     # an empty criterion after a real one is neutral, as it is for where()
     "having_then_empty": lambda c: (lambda P, Q, t, u, v: Q.from_(t).select(t.a).groupby(t.a).having(t.m1q == 1).having(P.Criterion.all([])))(*_acc(c)),
     "having_empty_alone": lambda c: (lambda P, Q, t, u, v: Q.from_(t).select(t.m1q).groupby(t.a).having(P.Criterion.all([])))(*_acc(c)),
@@ -644,7 +649,7 @@ ACCUMULATING = {
     "agg_filter_empty_alone": lambda c: (lambda P, Q, t, u, v: Q.from_(t).select(P.functions.Sum(t.m1q).filter(P.Criterion.all([]))))(*_acc(c)),
 }
 CLASS_ONLY = {"returning_star_then_aliased": ("postgresql",), "returning_table_star_then_aliased": ("postgresql",), "update_orderby_name": ("mysql", "sqlite", "postgresql"), "update_orderby_name_then_from": ("mysql", "sqlite", "postgresql"), "returning": ("postgresql",), "distinct_on": ("postgresql",), "returning_not_then_star": ("postgresql",), "returning_json_then_star": ("postgresql",)}
-FIRST_ONLY = {"select_star_then_aliased", "select_table_star_then_aliased", "select_star_then_fn", "returning_star_then_aliased", "returning_table_star_then_aliased", "update_orderby_name", "update_orderby_name_then_from", "create_unique_then_empty", "create_unique_empty_alone", "select_fn_then_star", "select_aliased_then_star", "select_not_then_table_star", "select_criterion_then_table_star", "returning_not_then_star",
+FIRST_ONLY = {"prewhere_empty_alone", "select_star_then_aliased", "select_table_star_then_aliased", "select_star_then_fn", "returning_star_then_aliased", "returning_table_star_then_aliased", "update_orderby_name", "update_orderby_name_then_from", "create_unique_then_empty", "create_unique_empty_alone", "select_fn_then_star", "select_aliased_then_star", "select_not_then_table_star", "select_criterion_then_table_star", "returning_not_then_star",
               "returning_json_then_star", "having_then_empty", "having_empty_alone", "agg_filter_then_empty", "agg_filter_empty_alone"}
 
 
